@@ -10,6 +10,11 @@
                   unstructured  foo.*.baz, *.baz   star anywhere else; "stars match zero or more
                                                    module components"
      cmd        the command line flag
+     umbrellas  a flag that assigns a whole group of options at once (`--strict` on the command line,
+                `strict = True` in [mypy]): it gives the option the value UVal AT THE RANK OF THE PLACE
+                IT IS WRITTEN, below an explicit setting of the option itself at the same place
+                (command_line.rst: "Directly specifying a flag of alternate behavior will override the
+                behavior of strict, regardless of the order in which they are passed")
      glob       the `[mypy]` section of the config file
    A source either leaves the option alone (Unset) or gives it one of `Values`.
 
@@ -57,23 +62,28 @@ CONSTANTS
   SortWildcards,    \* TRUE = the code (sorted(...)); FALSE = specification-level mutant
   WildcardsFirst,   \* TRUE = the code (wildcards + concrete); FALSE = mutant (concrete + wildcards)
   LastGlobWins,     \* TRUE = the code (globs applied in file order); FALSE = mutant (first match only)
-  LeadingStarZero   \* reading of the documentation: may a LEADING star stand for zero components?
+  LeadingStarZero,  \* reading of the documentation: may a LEADING star stand for zero components?
+  Umbrella,         \* TRUE: the umbrella flag may be written on the command line / in [mypy] (else never)
+  UVal,             \* the value the umbrella assigns to the observed option
+  UmbrellaAfterConfig  \* TRUE = the code (command-line --strict applied after the config file); FALSE = mutant
 
 Unset == "-"
 Star == "*"
 Modules == {ModSeq[i] : i \in DOMAIN ModSeq}
 Values == {ValSeq[i] : i \in DOMAIN ValSeq}
 Choice == Values \cup {Unset}
+UChoice == IF Umbrella THEN BOOLEAN ELSE {FALSE}
 
 VARIABLES
   stage,      \* "file" "cmdline" "start" "build" "done"
   sections,   \* sequence of [pat, val] in file order
   glob, cmd, inline,
+  globU, cmdU,  \* the umbrella is written in [mypy] / on the command line
   base,       \* value on the Options object returned by process_options
   globs,      \* Options._glob_options (keys, file order)
   queue,      \* keys still to be processed by build_per_module_cache
   cache       \* Options._per_module_cache restricted to this option: key -> value
-vars == <<stage, sections, glob, cmd, inline, base, globs, queue, cache>>
+vars == <<stage, sections, glob, cmd, inline, globU, cmdU, base, globs, queue, cache>>
 
 Last(s) == s[Len(s)]
 Front(s) == SubSeq(s, 1, Len(s) - 1)
@@ -120,7 +130,9 @@ ResolveWith(m, inl) ==
   ELSE IF Cands(m, DocStructured) # {}
        THEN sections[MostSpecific(Cands(m, DocStructured))].val                    \* 4. more specific wins
   ELSE IF cmd # Unset THEN cmd                                                     \* 5. command line
+  ELSE IF cmdU THEN UVal                                                           \*    (umbrella flag there)
   ELSE IF glob # Unset THEN glob                                                   \* 6. [mypy]
+  ELSE IF globU THEN UVal                                                          \*    (umbrella key there)
   ELSE Default
 Resolve(m) == ResolveWith(m, inline)
 
@@ -198,38 +210,49 @@ Impl(m) == ImplWith(m, inline)
 \* ---- actions
 NoCache == [k \in {} |-> Unset]
 Init == /\ stage = "file" /\ sections = <<>> /\ glob = Unset /\ cmd = Unset /\ inline = Unset
+        /\ globU = FALSE /\ cmdU = FALSE
         /\ base = Default /\ globs = <<>> /\ queue = <<>> /\ cache = NoCache
 
 WriteSection == /\ stage = "file" /\ Len(sections) < MaxSections
                 /\ \E p \in (IF sections = <<>> THEN FirstPats ELSE Patterns) \ Pats, v \in Choice :
                       sections' = Append(sections, [pat |-> p, val |-> v])
-                /\ UNCHANGED <<stage, glob, cmd, inline, base, globs, queue, cache>>
+                /\ UNCHANGED <<stage, glob, cmd, inline, globU, cmdU, base, globs, queue, cache>>
 WriteGlobal == /\ stage = "file"
-               /\ \E v \in Choice : glob' = v
+               /\ \E v \in Choice, u \in UChoice : glob' = v /\ globU' = u
                /\ stage' = "cmdline"
-               /\ UNCHANGED <<sections, cmd, inline, base, globs, queue, cache>>
+               /\ UNCHANGED <<sections, cmd, inline, cmdU, base, globs, queue, cache>>
+\* main.process_options:
+\*   parse_config_file: parse_section([mypy]) calls set_strict_flags() the moment it meets `strict = True`
+\*     (setattr on the Options object) and only COLLECTS the other keys, which are setattr'd after the loop:
+\*     an explicit key of the section beats the umbrella whatever their order       -> AfterFile
+\*   `if dummy.strict: set_strict_flags()`  -- command-line --strict, applied after the config file
+\*   parser.parse_args(args, options)       -- explicit command-line flags last
+AfterFile == Apply(IF globU THEN UVal ELSE Default, glob)
 ProcessOptions == /\ stage = "cmdline"
-                  /\ \E v \in Choice : /\ cmd' = v
-                                       /\ base' = Apply(Apply(Default, glob), v)
+                  /\ \E v \in Choice, u \in UChoice :
+                        /\ cmd' = v /\ cmdU' = u
+                        /\ base' = IF UmbrellaAfterConfig
+                                   THEN Apply(IF u THEN UVal ELSE AfterFile, v)
+                                   ELSE Apply(Apply(IF u \/ globU THEN UVal ELSE Default, glob), v)
                   /\ stage' = "start"
-                  /\ UNCHANGED <<sections, glob, inline, globs, queue, cache>>
+                  /\ UNCHANGED <<sections, glob, inline, globU, globs, queue, cache>>
 BuildStart == /\ stage = "start"
               /\ globs' = UnstructuredKeys
               /\ queue' = IF WildcardsFirst THEN WildcardKeys \o ConcreteKeys ELSE ConcreteKeys \o WildcardKeys
               /\ cache' = NoCache
               /\ stage' = "build"
-              /\ UNCHANGED <<sections, glob, cmd, inline, base>>
+              /\ UNCHANGED <<sections, glob, cmd, inline, globU, cmdU, base>>
 BuildKey == /\ stage = "build" /\ queue # <<>>
             /\ LET k == Head(queue)
                    v == Apply(CloneForModule(k), SectionOf(k).val)
                IN cache' = [x \in DOMAIN cache \cup {k} |-> IF x = k THEN v ELSE cache[x]]
             /\ queue' = Tail(queue)
-            /\ UNCHANGED <<stage, sections, glob, cmd, inline, base, globs>>
+            /\ UNCHANGED <<stage, sections, glob, cmd, inline, globU, cmdU, base, globs>>
 Ready == stage = "build" /\ queue = <<>>
 InlineComment == /\ Ready
                  /\ \E v \in Choice : inline' = v
                  /\ stage' = "done"
-                 /\ UNCHANGED <<sections, glob, cmd, base, globs, queue, cache>>
+                 /\ UNCHANGED <<sections, glob, cmd, globU, cmdU, base, globs, queue, cache>>
 
 Next == WriteSection \/ WriteGlobal \/ ProcessOptions \/ BuildStart \/ BuildKey \/ InlineComment
 Spec == Init /\ [][Next]_vars
@@ -241,7 +264,7 @@ GenSpec == Init /\ [][GenNext]_vars
    PROPERTIES
    ====================================================================================== *)
 TypeOK == /\ stage \in {"file", "cmdline", "start", "build", "done"}
-          /\ glob \in Choice /\ cmd \in Choice /\ inline \in Choice
+          /\ glob \in Choice /\ cmd \in Choice /\ inline \in Choice /\ globU \in BOOLEAN /\ cmdU \in BOOLEAN
           /\ base \in Values \cup {Default}
           /\ \A i \in 1..Len(sections) : sections[i].pat \in Patterns /\ sections[i].val \in Choice
           /\ DOMAIN cache \subseteq Pats
@@ -285,7 +308,7 @@ GlobList(gs) == IF gs = <<>> THEN <<>> ELSE <<Dotted(Head(gs))>> \o GlobList(Tai
 DocTabs(j) == IF j > Len(InlineSeq) THEN <<>> ELSE <<DocTab(1, InlineSeq[j])>> \o DocTabs(j + 1)
 ImpTabs(j) == IF j > Len(InlineSeq) THEN <<>> ELSE <<ImpTab(1, InlineSeq[j])>> \o ImpTabs(j + 1)
 Record ==
-  [s |-> SecList(1), g |-> glob, c |-> cmd, b |-> base,
+  [s |-> SecList(1), g |-> glob, c |-> cmd, gu |-> globU, cu |-> cmdU, b |-> base,
    k |-> KeyList(WildcardKeys \o ConcreteKeys), gl |-> GlobList(globs),
    doc |-> DocTabs(1), imp |-> ImpTabs(1)]
 Emit == Ready => PrintT(<<"CFG", ToJson(Record)>>)
